@@ -3,7 +3,7 @@ import json
 import subprocess
 import sys
 
-from . import adjacency, search, scc, serde, container
+from . import adjacency, search, scc, serde, container, paired
 
 REGISTRY = {}
 REGISTRY.update(adjacency.CHECKS)
@@ -11,6 +11,7 @@ REGISTRY.update(search.CHECKS)
 REGISTRY.update(scc.CHECKS)
 REGISTRY.update(serde.CHECKS)
 REGISTRY.update(container.CHECKS)
+REGISTRY.update(paired.CHECKS)
 
 
 def replay(pid, path):
